@@ -27,6 +27,7 @@ import torch  # noqa: E402
 from torch.autograd.functional import jacobian  # noqa: E402
 
 import c06_gen as G  # noqa: E402
+import c07_torch as TT  # noqa: E402
 
 torch.set_num_threads(2)
 DT = torch.float64
@@ -290,14 +291,20 @@ def tp_history(ck, drv, rng, fails, which):
     """TransformedParameter() must be the log-Jacobian at the CURRENT value of the wrapped parameter"""
     from torchtree import Parameter, TransformedParameter
 
-    reg = {**vector_transforms(), **elementwise_transforms()}
     name = which
-    ctor, dom, _tr = reg[name]
-    elementwise = name in elementwise_transforms()
+    treg = TT.tp_registry(rng)
+    if name in treg:
+        ctor, drawrow, kind = treg[name]
+    else:
+        reg = {**vector_transforms(), **elementwise_transforms()}
+        ctor, dom, _tr = reg[name]
+        drawrow = lambda m_: draw(dom, m_, rng)  # noqa: E731
+        kind = "elementwise" if name in elementwise_transforms() else "vector"
+    elementwise = kind == "elementwise"
     m = rng.randrange(1, 6)
     batched = rng.random() < 0.3
     B = rng.randrange(2, 4) if batched else 1
-    rows = [draw(dom, m, rng) for _ in range(B)]
+    rows = [drawrow(m) for _ in range(B)]
     steps = []
     try:
         p = Parameter("x", torch.tensor(rows if batched else rows[0], dtype=DT))
@@ -307,7 +314,7 @@ def tp_history(ck, drv, rng, fails, which):
         fails.append((f"TransformedParameter[{name}]:build", f"{type(e).__name__}: {e}", None))
         return
     for k in range(rng.randrange(2, 5)):
-        rows = [draw(dom, m, rng) for _ in range(B)]
+        rows = [drawrow(m) for _ in range(B)]
         mode = rng.choice(["assign", "inplace", "inplace"])
         steps.append({"mode": mode, "values": rows})
         new = torch.tensor(rows if batched else rows[0], dtype=DT)
@@ -340,6 +347,9 @@ def tp_history(ck, drv, rng, fails, which):
             if elementwise:
                 true = torch.diagonal(jacobian(lambda v: t2(v), xr)).abs().log().tolist()
                 good = close(g, true)
+            elif kind == "simplex":
+                true = torch.linalg.slogdet(jacobian(lambda v: t2(v)[..., :-1], xr))[1].item()
+                good = close(float(g), true)
             else:
                 true, _ = ad_logabsdet(lambda v: t2(v), xr)
                 good = close(float(g), true)
@@ -455,15 +465,21 @@ def run(ck: Check):
     ck.assumptions += [
         "theorems are over the reals; float64 behaviour is tied by 1e-10 agreement of forward/inverse/log-det with the "
         "Float run of the model and by 1e-8 agreement with the AD Jacobian",
-        "torch's autograd (the oracle of the search) and torch's own transforms (Exp, Sigmoid, Affine, StickBreaking) are "
-        "trusted; the latter are checked numerically only",
-        "softplus is modelled as log(1+exp x); torch's threshold-20 shortcut is outside the sampled range [-15, 15]",
+        "torch's autograd is the oracle of the search and is trusted. The torch transforms reachable from generated "
+        "configs (Exp, Sigmoid, Affine, Softplus, Power, StickBreaking, t.inv, Compose) are modelled as torch writes them "
+        "(TTModel/C07_Torch.lean), proved about (Props/C07_Torch.lean) and compared with torch itself",
+        "torchtree's own SoftPlus/CumSumSoftPlus are modelled as log(1+exp x) on [-15, 15]; torch's F.softplus threshold "
+        "(x > 20 -> x) is modelled in the torch file and the theorems there are stated for |x| <= 20",
         "TrilExpDiagonalTransform reports no log-Jacobian (raises NotImplementedError) and LogDifferenceRateTransform / "
         "ConvexCombinationTransform ship no inverse (NotImplementedError): those clauses have nothing to compare",
     ]
     ck.trusted += ["torch.autograd.functional.jacobian / slogdet (search oracle)",
-                   "torch.distributions Exp/Sigmoid/Affine/StickBreaking transforms (numerically checked only)"]
-    ok, broken = ck.lean_side({}, ["TTModel.C07_Transforms", "TTProofs.Props.C07", "drv_c07"], "TTProofs/Props/C07.lean")
+                   "torch's elementary functions exp/log/log1p/expm1/sigmoid/pow (Lean Float vs torch at 1e-10)"]
+    ok, broken = ck.lean_side({}, ["TTModel.C07_Transforms", "TTModel.C07_Torch", "TTProofs.Props.C07",
+                                   "TTProofs.Props.C07_Torch", "drv_c07"], "TTProofs/Props/C07.lean")
+    if ok and not ck.audit("TTProofs/Props/C07_Torch.lean"):
+        ok = False
+        broken = [o["name"] + ": " + o.get("detail", "") for o in ck.obligations if not o["ok"]]
     drv = None
     try:
         drv = ck.driver("drv_c07")
@@ -507,26 +523,9 @@ def run(ck: Check):
                         sample={"transform": name, "x": rows, "batched": batched} if m >= 3 else None,
                         bucket=f"{name}/{'batched' if batched else 'single'}")
                 flush({"type": "point", "transform": name, "x": rows, "batched": batched}, (m, len(rows)))
-        # ---- torch's own transforms (trusted base; numeric check only)
-        for name, (ctor, dom, evt) in torch_transforms().items():
-            for i in range(6 if ck.thorough() else 3):
-                m = rng.randrange(2, 6)
-                rows = [draw(dom, m, rng)]
-                t = ctor()
-                x = torch.tensor(rows[0], dtype=DT)
-                y = t(x)
-                rep = t.log_abs_det_jacobian(x, y)
-                if evt == 0:
-                    true = torch.diagonal(jacobian(lambda v: t(v), x)).abs().log().tolist()
-                    good = close(rep.tolist(), true)
-                else:  # simplex: Jacobian of the first K-1 coordinates
-                    J = jacobian(lambda v: t(v)[..., :-1], x)
-                    good = close(rep.item(), torch.linalg.slogdet(J)[1].item())
-                inv_ok = torch.allclose(t.inv(y), x, rtol=1e-8, atol=1e-8)
-                ck.case(key=(name, tuple(rows[0])), bucket=f"{name}")
-                if not (good and inv_ok):
-                    fails.append((f"{name}:logdet", f"torch transform disagrees with its AD Jacobian at {rows[0]}"))
-                flush({"type": "torch", "transform": name, "x": rows}, (m, 1))
+        # ---- the torch transforms reachable from generated configs: torch itself vs the Lean model
+        #      (TTModel/C07_Torch.lean) and vs the AD Jacobian; Compose, .inv, nesting as the CLI nests them
+        TT.run_section(ck, drv, rng, fails, flush)
         # ---- TrilExpDiagonalTransform (forward / inverse; no log-det shipped)
         from torchtree.distributions.transforms import TrilExpDiagonalTransform
 
@@ -577,8 +576,8 @@ def run(ck: Check):
                 ck.case(key=("lograte", G.paren(t), batched), nontrivial=n >= 3, bucket=f"LogDifferenceRate/n={n if n <= 6 else '7+'}")
                 flush({"type": "lograte", "tree": G.paren(t), "dates": dates, "x": rows, "batched": batched}, (n, len(rows)))
         # ---- TransformedParameter(): current value after updates; Lean cached-value machine
-        names = list(V) + list(E)
-        for i in range(120 if ck.thorough() else 40):
+        names = list(V) + list(E) + list(TT.tp_registry(rng))
+        for i in range(200 if ck.thorough() else 72):
             nm = names[i % len(names)]
             tp_history(ck, drv, rng, fails, nm)
             ck.case(key=("tp", nm, i), bucket=f"TransformedParameter/{nm}")
@@ -623,13 +622,29 @@ def replay(path: str) -> int:
         check_heights(_Ck(), None, G.parse_paren(obj["tree"]), obj["dates"], obj["kind"], obj.get("k"), obj["x"],
                       obj["batched"], fails)
         print(f"{obj['kind']} node-height transform on {obj['tree']} dates {obj['dates']} at {obj['x']}")
+    elif typ in ("torch", "torchc", "stick"):
+        fails.extend(TT.replay(obj))
+        print(f"{obj.get('transform', 'torch.StickBreakingTransform')} at x = {obj['x']}")
+    elif typ == "nested":
+        print("nested TransformedParameter history:", obj)
+        f2 = []
+
+        class _C:
+            def case(self, *a, **k):
+                pass
+
+        print("(re-run by ./check C07: the history is randomised from the recorded loc/scale)")
+        return 1
     elif typ == "tp":
         import random
 
         # re-run the recorded update script
         from torchtree import Parameter, TransformedParameter
 
+        import random as _r
+
         reg = {**vector_transforms(), **elementwise_transforms()}
+        reg.update({k: (v[0], None, None) for k, v in TT.tp_registry(_r.Random(0)).items()})
         ctor = reg[obj["transform"]][0]
         first = obj["steps"][0]["values"]
         p = Parameter("x", torch.zeros_like(torch.tensor(first if obj["batched"] else first[0], dtype=DT)))
